@@ -167,6 +167,7 @@ def C05(ctx):
 def C07(ctx):
     ctx.assumptions += ["weights are dyadic rationals k/8 or small integers: every f64 operation of the code is exact",
                         "RationalSemiring has no public constructor: only naturals built from one/zero/+/* are reachable"]
+    folds_model(ctx)
     _bdd_family(ctx, "c07", "TraceBdd_C07.cfg")
     _sdd_family(ctx, "c07", "TraceSdd_C07.cfg", nq=4, nt=24)
     record_and_validate(ctx, td_jobs(ctx, 3 if ctx.quick else 16, 120), "TraceTopDown", "TraceTopDown_C07.cfg")
@@ -176,7 +177,14 @@ def C08(ctx):
     _bdd_family(ctx, "c08", "TraceBdd_C08.cfg")
 
 
+def folds_model(ctx):
+    model_check(ctx, "Folds", "MC_Folds.cfg", "fold / count_nodes / clear_scratch as coded: pure and scratch-empty for all 1424 DAGs (3 nodes, 3 levels, "
+                "complement edges, don't-care nodes) x all sequences of 3 queries", workers=6, timeout=900)
+    model_check(ctx, "Folds", "MC_Folds_skip.cfg", "regression: not memoising don't-care nodes leaves scratch behind", workers=2, expect_violation=True)
+
+
 def C10(ctx):
+    folds_model(ctx)
     _bdd_family(ctx, "c10", "TraceBdd_C10.cfg")
     _sdd_family(ctx, "c10", "TraceSdd_C10.cfg", nq=4, nt=24)
 
